@@ -11,7 +11,7 @@
 (*    bit, matching / near-miss / case-variant names, ...)                 *)
 (*  - JudgeCompile(rec): the verdict kinds for one recorded compilation    *)
 (***************************************************************************)
-EXTENDS FindSem
+EXTENDS FindSem, Manager
 
 \* ---------------------------------------------------------------- outputs
 PortDest(port) == IF port = <<0>> THEN StdOut ELSE SubSeq(port, 3, Len(port))
@@ -63,6 +63,23 @@ FramedOuts(fx, iomap) ==
   IN [outs |-> Eager(outs), rest |-> d.rest,
       unknownTags |-> {d.frames[i][2] : i \in {j \in 1..Len(d.frames) : ~IoEntry(iomap, d.frames[j][2]).found}},
       writesElsewhere |-> \E i \in 1..Len(fx) : fx[i].e = "write" /\ fx[i].port # <<0>>]
+
+\* ---------------------------------------------------------------- resources created by the bindings
+\* classification by behaviour, not by name: a matcher maps a string to a boolean without effects;
+\* a printer applied to a string writes
+ProbeFile == [NoFile EXCEPT !.name = <<120>>, !.relpath = <<120>>]
+ClassOf(v) ==
+  IF IsV(v, "port") THEN "port" ELSE IF IsV(v, "mutex") THEN "mutex" ELSE IF IsV(v, "printer") THEN "printer"
+  ELSE IF IsV(v, "clo") /\ Len(v.clo.ps) = 1 THEN
+     LET r == Apply(v, <<VStr(<<120>>)>>, [file |-> ProbeFile], 5000) IN
+     IF \E i \in 1..Len(r.fx) : r.fx[i].e = "write" THEN "printer"
+     ELSE IF IsV(r.v, "bool") /\ r.fx = <<>> THEN "matcher" ELSE "other"
+  ELSE "other"
+CountClass(env, c) == Cardinality({i \in 1..Len(env) : ClassOf(env[i][2]) = c})
+ResourceKinds(prep, t) ==
+  LET m == ManagerFor(t) IN
+  (IF CountClass(prep.env, "matcher") # Len(m.matches) THEN <<"matcher-count">> ELSE <<>>)
+  \o (IF CountClass(prep.env, "printer") # Len(m.printers) THEN <<"printer-count">> ELSE <<>>)
 
 \* ---------------------------------------------------------------- directed files
 BaseFile(now) ==
